@@ -1046,16 +1046,11 @@ theorem reentry_equiv (r : Reentry) (s : Shadow) : reentryResolves r s = Spec.re
 theorem reentry_global (r : Reentry) (s : Shadow) (h : r ≠ .ottoEval) : reentryResolves r s = .global := by
   cases r <;> first | rfl | exact absurd rfl h
 
-/-- Outside the listed regions every API edge case gives the specified result (in particular: no Go panic). -/
-theorem api_cases (c : ApiCase) (h : Spec.Dev.apiRegion c = none) : apiModel c = Spec.apiSpec c := by
-  cases c <;> first | rfl | (simp [Spec.Dev.apiRegion] at h)
+/-- Every API edge case gives the specified result – in particular none ends in a Go panic. -/
+theorem api_cases (c : ApiCase) : apiModel c = Spec.apiSpec c := by
+  cases c <;> rfl
 
--- each region deviates (witnesses)
-example : apiModel .runThrowToStringThrows = .goPanic ∧ Spec.apiSpec .runThrowToStringThrows = .errPlain := ⟨rfl, rfl⟩
-example : apiModel .badIsNaN = .goPanic := rfl
-example : apiModel .callerLocationNoScript = .goPanic := rfl
-example : apiModel .setNilObject = .goPanic := rfl
-example : apiModel .marshalFunction ≠ Spec.apiSpec .marshalFunction := by decide
-example : apiModel .callTwoStatements ≠ Spec.apiSpec .callTwoStatements := by decide
+theorem api_no_panic (c : ApiCase) : apiModel c ≠ .goPanic := by
+  cases c <;> simp [apiModel]
 
 end OttoVerif.C15.Thm
